@@ -6,12 +6,16 @@
    All statements hold for every tree [c_root] of any depth and size, every working directory,
    every relative or absolute input directory, every include list (with or without prefix),
    every setting of recurse / vt / grpc and every package oracle [pkg_of].
-   Hypotheses: [wf_node] — the tree is a file system (sibling names distinct, no "", ".", "..");
-   [dirs_ok] — the input directory and the include directories exist and are directories;
+   Hypotheses (all on the INPUT): [wf_node] — the tree is a file system (sibling names distinct,
+   no "", ".", ".."); [dirs_ok] — the input directory and the include directories exist and are
+   directories; [tree_agreesb] — for the mapping clause only: the line scan of
+   protoFileHasGoPackage is right about every *.proto file of the tree (ProtoLex.scan_agrees:
+   scan = "declares option go_package" by the file's lexical structure).  Without the last one
+   the mapping clause is FALSE of the code ([C20_full_refuted]; known findings C20-scan-…);
    [run … = Ok argv] — the tool reached exec.Command (it does, by C20_one_invocation, whenever
    PackageNameFromPath succeeds).                                                             *)
-From Coq Require Import String List Bool.
-From GT Require Import ProtoModel ProtoProofs ProtoJudge ProtoParse.
+From Coq Require Import String List Bool Ascii.
+From GT Require Import ProtoModel ProtoProofs ProtoJudge ProtoParse ProtoScan ProtoExtra ProtoStrModel ProtoStrProofs ProtoRefine.
 Import ListNotations.
 Local Open Scope string_scope.
 
@@ -49,20 +53,72 @@ Theorem C20_plugins : forall pkg_of cfg argv,
   requests PGo argv = true /\ requests PVt argv = c_vt cfg /\ requests PGrpc argv = c_grpc cfg.
 Proof. exact run_plugins. Qed.
 
-Theorem C20_mappings : forall pkg_of cfg argv,
+(* the mapping clause as the property states it: for every proto under the include paths that
+   does not DECLARE `option go_package` ([spec_mappings]: by the lexical structure of the file's
+   content) … *)
+Definition C20_full_statement : Prop := forall pkg_of cfg argv,
   wf_node (c_root cfg) -> dirs_ok cfg -> run pkg_of cfg = Ok argv ->
-  forall pl, mappings_of pl argv =
-             if requested cfg pl then flat_map (spec_mappings_of pkg_of cfg) (include_paths cfg) else [].
-Proof. exact run_mappings. Qed.
+  forall pl, mappings_of pl argv = spec_mappings pkg_of cfg pl.
+
+(* … is false of the code: protoFileHasGoPackage decides by `strings.Contains(line, "option
+   go_package =")`.  Witness: one proto whose option is commented out gets no mapping. *)
+Definition refute_root : node :=
+  Dir "" [Dir "m" [File "a.proto" "syntax = ""proto3"";
+// option go_package = ""example.com/x"";
+message M {}
+" true]].
+Definition refute_cfg : config :=
+  {| c_root := refute_root; c_cwd := ["m"]; c_input := PRel []; c_recurse := false;
+     c_vt := false; c_grpc := false; c_includes := [] |}.
+
+Theorem C20_full_refuted : ~ C20_full_statement.
+Proof.
+  intros H.
+  assert (Hwf : wf_node (c_root refute_cfg)) by (apply wf_nodeb_sound; vm_compute; reflexivity).
+  assert (Hd : dirs_ok refute_cfg) by (apply dirs_okb_sound; vm_compute; reflexivity).
+  destruct (run (fun _ => Ok "example.com/m") refute_cfg) as [argv|] eqn:E; [|vm_compute in E; discriminate].
+  specialize (H _ _ _ Hwf Hd E PGo). vm_compute in E. inversion E; subst. vm_compute in H. discriminate.
+Qed.
+
+(* C20_partial: on the input domain where the scan is right about every *.proto file, every
+   requested plugin — and no other — receives exactly the mappings the property lists *)
+Theorem C20_mappings : forall pkg_of cfg argv,
+  wf_node (c_root cfg) -> dirs_ok cfg -> tree_agreesb (c_root cfg) = true ->
+  run pkg_of cfg = Ok argv ->
+  forall pl, mappings_of pl argv = spec_mappings pkg_of cfg pl.
+Proof. exact run_mappings_spec. Qed.
 
 (* … where, per include path (directory a, optional prefix), [spec_mappings_of] lists, each
    relative path once, exactly the pairs (r, k): a ++ r is a regular *.proto file below a that
-   does not declare go_package, and k is the prefix joined with the directory of r when a prefix
-   was given, the Go package of the directory of a ++ r otherwise *)
-Theorem C20_mappings_scope : forall pkg_of cfg inc, wf_node (c_root cfg) ->
+   does not declare go_package, and k is filepath.Join of the prefix as typed with the directory
+   of r when a prefix was given, the Go package of the directory of a ++ r otherwise *)
+Theorem C20_mappings_scope : forall pkg_of cfg inc,
+  wf_node (c_root cfg) -> tree_agreesb (c_root cfg) = true ->
   NoDup (map fst (spec_mappings_of pkg_of cfg inc))
   /\ (forall r k, In (r, k) (spec_mappings_of pkg_of cfg inc) <-> mapping_wanted pkg_of cfg inc r k).
 Proof. exact spec_mappings_of_char. Qed.
+
+(* on every tree: the mappings are those of the protos the line scan takes for undeclared *)
+Theorem C20_mappings_as_scanned : forall pkg_of cfg argv,
+  wf_node (c_root cfg) -> dirs_ok cfg -> run pkg_of cfg = Ok argv ->
+  forall pl, mappings_of pl argv =
+             if requested cfg pl then flat_map (scan_mappings_of pkg_of cfg) (include_paths cfg) else [].
+Proof. exact run_mappings. Qed.
+
+(* what the line scan decides, exactly: "the content contains `option go_package =`" … *)
+Theorem C20_scan_is_substring_test : forall c,
+  scan_go_package c = true <-> exists a b, c = (a ++ go_package_marker ++ b)%string.
+Proof.
+  intros c. split; [apply scan_sound|]. intros (a & b & ->). apply scan_complete.
+Qed.
+
+(* … which is right for the canonical spelling `option go_package = "…"` wherever it stands
+   outside comments, string literals and identifiers (the prefix leaves the lexer in its normal
+   state); the near misses are ProtoScan.scan_refuted_* *)
+Theorem C20_scan_right_on_canonical : forall pre pkg post toks,
+  lex_from LNormal [] pre = (LNormal, toks) -> plain_str """"%char pkg = true ->
+  scan_agrees (pre ++ "option go_package = """ ++ pkg ++ """" ++ post) = true.
+Proof. exact scan_agrees_canonical. Qed.
 
 (* exactly one invocation: Run hands one argument vector to exec.Command, and it gets there
    whenever the directories exist and PackageNameFromPath does not fail *)
@@ -76,12 +132,17 @@ Proof. exact invocations_exactly_one. Qed.
 
 (* the same, from the executable hypotheses the correspondence run evaluates on every case *)
 Theorem C20_checked : forall pkg_of cfg argv,
-  wf_nodeb (c_root cfg) = true -> dirs_okb cfg = true -> run pkg_of cfg = Ok argv ->
+  wf_nodeb (c_root cfg) = true -> dirs_okb cfg = true -> tree_agreesb (c_root cfg) = true ->
+  run pkg_of cfg = Ok argv ->
   map (to_abs (c_cwd cfg)) (files_of argv) = spec_files cfg
   /\ includes_of argv = spec_includes cfg
   /\ (forall pl, requests pl argv = requested cfg pl)
   /\ (forall pl, mappings_of pl argv = spec_mappings pkg_of cfg pl).
-Proof. exact run_checked. Qed.
+Proof.
+  intros pkg_of cfg argv H1 H2 H3 H4.
+  destruct (run_checked pkg_of cfg argv H1 H2 H4) as (A & B & C & D). repeat split; auto.
+  intros pl. rewrite spec_scan_mappings by (auto using wf_nodeb_sound). apply D.
+Qed.
 
 (* the judge of the correspondence run parses the recorded strings; on rendered argument vectors
    (segments without '/', mapping keys without '=', files not starting with '-') that parser
@@ -102,34 +163,114 @@ Theorem C20_judge_reads_model : forall pkg_of cfg argv,
   (forall q, In q (files_of argv) -> starts_dash (render_pspec q) = false) ->
   let o := obs_of_args (c_cwd cfg) (map (parse_arg (c_cwd cfg)) (map render_arg argv)) in
   o_files o = spec_files cfg /\ o_incs o = spec_includes cfg
-  /\ o_go o = spec_mappings pkg_of cfg PGo /\ o_vt o = spec_mappings pkg_of cfg PVt
-  /\ o_grpc o = spec_mappings pkg_of cfg PGrpc /\ o_req o = (true, c_vt cfg, c_grpc cfg).
+  /\ o_go o = scan_mappings pkg_of cfg PGo /\ o_vt o = scan_mappings pkg_of cfg PVt
+  /\ o_grpc o = scan_mappings pkg_of cfg PGrpc /\ o_req o = (true, c_vt cfg, c_grpc cfg).
 Proof. exact judge_reads_model. Qed.
 
+(* the argument vector holds nothing else: plugin flags, then -I / M options, then the files;
+   each plugin's output flag occurs exactly once when requested, never otherwise *)
+Theorem C20_argv_shape : forall pkg_of cfg argv, run pkg_of cfg = Ok argv ->
+  exists incs paths,
+    argv = (plugin_flags cfg ++ incs ++ map AFile paths)%list /\ Forall is_inc_or_map incs.
+Proof. exact run_shape. Qed.
+
+Theorem C20_plugins_exactly_once : forall pkg_of cfg argv pl, run pkg_of cfg = Ok argv ->
+  out_flag_count pl argv = if requested cfg pl then 1 else 0.
+Proof. exact flag_count. Qed.
+
+(* -I options: a directory occurs as often as the include paths (input directory, then the
+   -include entries) name it; so none is repeated iff those are pairwise different directories *)
+Theorem C20_includes_exactly_once : forall pkg_of cfg argv,
+  wf_node (c_root cfg) -> dirs_ok cfg -> run pkg_of cfg = Ok argv ->
+  (NoDup (includes_of argv)
+   <-> NoDup (map (fun i => to_abs (c_cwd cfg) (fst i)) (include_paths cfg))).
+Proof. exact includes_nodup. Qed.
+
+(* the input directory is cut at '=' like an -include entry (string-level model, the one tied
+   to the source by the translator): an existing input directory k=v holding a proto makes Run
+   fail before protoc — "invokes protoc exactly once" and "an include path for the input
+   directory" are false there (known finding C20-input-dir-equals) *)
+Theorem C20_input_equals_refuted :
+  fs_resolve eq_world (g_InputDir eq_gen) <> None
+  /\ fst (s_find_protos eq_world eq_gen (g_InputDir eq_gen) false) = ["k=v/a.proto"]
+  /\ s_run eq_world eq_gen = (EFail, []).
+Proof. exact s_input_equals_refuted. Qed.
+
+(* the model that the translator tie equates with the current source (ProtoStrModel.s_argv,
+   strings as typed on the command line) computes the rendering of the model the theorems above
+   are about — for every world and command line that [represents] a configuration: same tree,
+   names without '/', input directory spelled Clean and without '=', every -include entry
+   `dir[=prefix]` with filepath.Abs dir = the structured include directory *)
+Theorem C20_source_model_refines : forall pkg_of W g cfg,
+  represents pkg_of W g cfg -> wf_node (c_root cfg) -> dirs_ok cfg ->
+  s_argv W g = render_result (run pkg_of cfg).
+Proof. exact s_argv_refines_rep. Qed.
+
+(* … so every argument vector it hands to exec.Command is the rendering of one the theorems
+   speak about, and it runs protoc exactly when the structured model does *)
+Theorem C20_source_model_invocations : forall pkg_of W g cfg,
+  represents pkg_of W g cfg -> wf_node (c_root cfg) -> dirs_ok cfg ->
+  snd (s_run W g) = map (fun argv => (s_protoc g, map render_arg argv)) (invocations pkg_of cfg).
+Proof. exact s_run_refines_rep. Qed.
+
 (* ------------------------------------------------------------------ non-vacuity *)
+Definition nogp : string := "syntax = ""proto3"";
+message M {}
+".
+Definition gp : string := "syntax = ""proto3"";
+option go_package = ""example.com/gen/x"";
+message M {}
+".
 Definition ex_root : node :=
-  Dir "" [Dir "w" [Dir "m" [File "go.mod" false true;
-    Dir "inc" [File "j.proto" false true; Dir "x" [File "i.proto" false true; File "k.proto" true true]];
-    Dir "protos" [File "a.proto" false true; File "b.proto" true true;
-                  Dir "d.proto" [File "e.proto" false true];
-                  File "l.proto" false false;
-                  Dir "protos" [File "a.proto" false true];
-                  File "readme.txt" false true]]]].
+  Dir "" [Dir "w" [Dir "m" [File "go.mod" nogp true;
+    Dir "inc" [File "j.proto" nogp true; Dir "x" [File "i.proto" nogp true; File "k.proto" gp true]];
+    Dir "protos" [File "a.proto" nogp true; File "b.proto" gp true;
+                  Dir "d.proto" [File "e.proto" nogp true];
+                  File "l.proto" nogp false;
+                  Dir "protos" [File "a.proto" nogp true];
+                  File "readme.txt" nogp true]]]].
 Definition ex_pkg (d : path) : result string := Ok (String.concat "/" ("example.com" :: skipn 1 d)).
 Definition ex_cfg (recurse : bool) : config :=
   {| c_root := ex_root; c_cwd := ["w"; "m"]; c_input := PAbs ["w"; "m"; "protos"];
      c_recurse := recurse; c_vt := true; c_grpc := false;
-     c_includes := [(PRel [".."; "m"], None); (PRel ["inc"], Some ["github.com"; "foo"])] |}.
+     c_includes := [(PRel [".."; "m"], None); (PRel ["inc"], Some "github.com//foo/")] |}.
 
 (* hypotheses hold of a tree with a sub directory named like the input directory, a directory
    named *.proto, a symlink named *.proto, an absolute input directory met again inside the
    walk of an include path (its parent), and a prefixed include *)
 Example C20_example_hyps :
-  wf_node ex_root /\ dirs_ok (ex_cfg true) /\ (forall d, ex_pkg d <> Err).
+  wf_node ex_root /\ dirs_ok (ex_cfg true) /\ tree_agreesb ex_root = true /\ (forall d, ex_pkg d <> Err).
 Proof.
   split; [apply wf_nodeb_sound; vm_compute; reflexivity|].
-  split; [apply dirs_okb_sound; vm_compute; reflexivity|]. intros d; discriminate.
+  split; [apply dirs_okb_sound; vm_compute; reflexivity|].
+  split; [vm_compute; reflexivity|]. intros d; discriminate.
 Qed.
+
+Definition ex_world : world :=
+  {| w_root := ex_root; w_cwd := "/w/m"; w_pkg := fun s => ex_pkg (abs_segs s); w_exec := fun _ _ => ENil |}.
+Definition ex_gen (recurse : bool) : Generate :=
+  {| g_InputDir := "/w/m/protos"; g_ProtocPath := ""; g_Recurse := recurse; g_VTProto := true;
+     g_GRPC := false; g_Include := ["../m"; "inc=github.com//foo/"] |}.
+
+Ltac okp_tac :=
+  repeat (constructor; [unfold seg_ok, name_ok; repeat split; (discriminate || reflexivity)|]); try constructor.
+
+(* the command line `-input-dir /w/m/protos -vt-proto -include ../m,inc=github.com//foo/` run in
+   /w/m represents ex_cfg: the refinement theorem is not vacuous *)
+Example C20_example_represents : forall r, represents ex_pkg ex_world (ex_gen r) (ex_cfg r).
+Proof.
+  intros r. constructor; try reflexivity.
+  - apply all_namesb_sound. vm_compute. reflexivity.
+  - split; okp_tac.
+  - repeat constructor.
+    + exists "/w/m/protos", "", false. repeat split; try reflexivity. vm_compute. okp_tac.
+    + exists "../m", "", false. repeat split; try reflexivity. vm_compute. okp_tac.
+    + exists "inc", "github.com//foo/", true. repeat split; try reflexivity. vm_compute. okp_tac.
+Qed.
+
+Example C20_example_refines :
+  s_argv ex_world (ex_gen false) = render_result (run ex_pkg (ex_cfg false)).
+Proof. vm_compute. reflexivity. Qed.
 
 Example C20_example_run :
   (match run ex_pkg (ex_cfg false) with Ok a => map render_arg a | Err => [] end) =
@@ -184,8 +325,18 @@ Print Assumptions C20_files_scope.
 Print Assumptions C20_files_exactly_once.
 Print Assumptions C20_includes.
 Print Assumptions C20_plugins.
+Print Assumptions C20_full_refuted.
 Print Assumptions C20_mappings.
 Print Assumptions C20_mappings_scope.
+Print Assumptions C20_mappings_as_scanned.
+Print Assumptions C20_scan_is_substring_test.
+Print Assumptions C20_scan_right_on_canonical.
+Print Assumptions C20_argv_shape.
+Print Assumptions C20_plugins_exactly_once.
+Print Assumptions C20_includes_exactly_once.
+Print Assumptions C20_input_equals_refuted.
+Print Assumptions C20_source_model_refines.
+Print Assumptions C20_source_model_invocations.
 Print Assumptions C20_at_most_one_invocation.
 Print Assumptions C20_one_invocation.
 Print Assumptions C20_checked.
